@@ -344,7 +344,7 @@ func c4OpenReturnsCombined(c *Ctx, rule string) {
 	}
 	isSyncerList := func(t types.Type) bool {
 		sl, ok := types.Unalias(t).Underlying().(*types.Slice)
-		return ok && strings.HasSuffix(sl.Elem().String(), "zapcore.WriteSyncer")
+		return ok && strings.HasSuffix(TStr(sl.Elem()), "zapcore.WriteSyncer")
 	}
 	cut := 0
 	seqs, trunc := ConcPaths(op, ConcCfg{
